@@ -1,7 +1,7 @@
 """C18 - HTML-based contrib renderers conservatively extend HtmlRenderer (E1, differential)."""
 import re
 import itertools
-from mc import core, configs, spaces, trees
+from mc import core, configs, spaces, trees, leafspell, inlinespell
 
 ID = 'C18'
 TECHNIQUE = ('exhaustive enumeration of words over 8 cluster alphabets, texts over the line alphabet and the edit-1 '
@@ -43,6 +43,7 @@ def jobs(tier):
     for n in range(1, nt + 1):
         ns = 1 if n < 3 else (16 if n == 3 else 128)
         js += [('trees', n, 2 if tier == 'quick' else 3, sh, ns) for sh in range(ns)]
+    js += [j + (tier,) for j in leafspell.jobs() + inlinespell.jobs()]
     return js
 
 
@@ -154,6 +155,15 @@ def run_job(job):
             if i % ns == sh:
                 run_text(r, trees.to_markdown(blocks, trees.DEFAULTS)[0])
         r.sample(dict(space='generated trees', nodes=n), 1)
+    elif kind in ('leafspell', 'inlinespell'):
+        mod = leafspell if kind == 'leafspell' else inlinespell
+        ctxs = mod.CONTEXTS if job[3] == 'thorough' else (['alone', 'in-list-item'] if kind == 'leafspell' else ['paragraph-mid', 'atx heading'])
+        for case in mod.cases_of_job(job[:3]):
+            for ctx in ctxs:
+                x = mod.in_context(case, ctx)
+                if x is not None:
+                    run_text(r, x[0])
+        r.sample(dict(space=kind, family=job[1]), 1)
     elif kind == 'edit':
         from checks import c02
         toks = spaces.EDIT_SMALL if job[3] == 'thorough' else ['[', '|', '$', '`']
